@@ -166,8 +166,9 @@ fn parse_delay(
     s: &ParserState,
 ) -> Result<&'static KanataAction> {
     const ERR_MSG: &str = "delay expects a single number (ms, 0-65535)";
-    let delay = ac_params[0]
-        .atom(s.vars())
+    let delay = ac_params
+        .first()
+        .and_then(|p| p.atom(s.vars()))
         .map(str::parse::<u16>)
         .ok_or_else(|| anyhow!("{ERR_MSG}"))?
         .map_err(|e| anyhow!("{ERR_MSG}: {e}"))?;
